@@ -325,6 +325,11 @@ def _axis(k, a, pos=1):
     return None if ax is None else _int(ax)
 
 
+def _plain(p):
+    from .alg import plain_atoms
+    return plain_atoms(p)
+
+
 def _not_handled():
     from .alg import NotHandled
     raise NotHandled()
@@ -366,6 +371,9 @@ def externals(interp_truth=None):
         "divide": lambda a, k: arith("/", a[0], a[1]), "multiply": lambda a, k: arith("*", a[0], a[1]),
         "power": lambda a, k: arith("**", a[0], a[1]), "add": lambda a, k: arith("+", a[0], a[1]), "subtract": lambda a, k: arith("-", a[0], a[1]),
         "clip": lambda a, k: _map(lambda v: (to_poly(v) if (a[1] if len(a) > 1 else k.get("min_value")) is None else fn("max", to_poly(v), to_poly(a[1] if len(a) > 1 else k.get("min_value")))), a[0]),
+        "ravel": lambda a, k: _flatten(a[0]),
+        "isfinite": lambda a, k: _map(lambda v: not any(n_ in ("INF", "NEGINF", "NAN", "DIVZERO") for n_ in _plain(to_poly(v))), a[0]),
+        "boolean_mask": lambda a, k: [x for x, m_ in zip(a[0], a[1]) if (m_ if isinstance(m_, bool) else truth(m_))],
         "abs": _absf, "exp": _ew1("exp"), "log": _ew1("log"),
         "tolist": lambda a, k: a[0] if a else _not_handled(),
         "concatenate": lambda a, k: _concat(a[0], _axis(k, a)),
